@@ -20,6 +20,7 @@ RULE = (
     "SyncRunner and AsyncRunner under SimLoop with adversarial per-item delays (reverse order, ties, random), max_concurrency None/1/2/3 (worker "
     "pool path) and ready-shuffle. Each combination is also executed alone as the reference. Non-trivial = >=2 items and (completion order "
     "differed from input order, or an item failed or branched); distinct = digest of (program shape, lists, mode, clone, fault, completion order)."
+    " Also: broadcast inputs renamed on the wrapper together with clone lists, the failing node may be any inner function node (selected by the item run's input values), several kinds of injected exception."
 )
 ASSUMPTIONS = ["broadcast values are small lists so that clone identity can be observed", "items are distinguished by distinct list values"]
 
